@@ -134,8 +134,48 @@ impl ScriptedWrite {
     }
 }
 
+thread_local! {
+    /// set while a case runs whose sink is "re-entrant": while it handles a call, the sink renders integers with another
+    /// Writer of the same thread (a framing / logging / tee adapter that prints a length header does exactly that)
+    static REENTRANT_SINK: Cell<bool> = Cell::new(false);
+    static REENTRANT_SINK_ERRORS: Cell<u64> = Cell::new(0);
+    static REENTRANT_SINK_CALLS: Cell<u64> = Cell::new(0);
+}
+
+struct InnerSink(Rc<RefCell<Vec<u8>>>);
+impl Write for InnerSink {
+    fn write(&mut self, buf: &[u8]) -> io::Result<usize> {
+        self.0.borrow_mut().extend_from_slice(buf);
+        Ok(buf.len())
+    }
+    fn flush(&mut self) -> io::Result<()> {
+        Ok(())
+    }
+}
+
+fn reentrant_sink_work(len: usize) {
+    let out = Rc::new(RefCell::new(Vec::new()));
+    {
+        let mut w = Writer::new(Box::new(InnerSink(out.clone())));
+        w.write(&(len as u64));
+        w.write_char(' ');
+        w.write(&-8_876_543_210_123_456_789i64);
+        w.write_char(' ');
+        w.write(&(u128::MAX - len as u128));
+        w.flush();
+    }
+    let want = format!("{} {} {}", len as u64, -8_876_543_210_123_456_789i64, u128::MAX - len as u128);
+    REENTRANT_SINK_CALLS.with(|c| c.set(c.get() + 1));
+    if out.borrow().as_slice() != want.as_bytes() {
+        REENTRANT_SINK_ERRORS.with(|c| c.set(c.get() + 1));
+    }
+}
+
 impl Write for ScriptedWrite {
     fn write(&mut self, buf: &[u8]) -> io::Result<usize> {
+        if REENTRANT_SINK.with(|c| c.get()) {
+            reentrant_sink_work(buf.len());
+        }
         let mut st = self.st.borrow_mut();
         st.calls += 1;
         if buf.is_empty() {
@@ -1603,6 +1643,11 @@ fn run_actions(spec: &CaseSpec, buf: usize, rep: &mut Report, verbose: bool) {
     }
     let mut mon = Monitor::new(buf, st.clone());
     let mut macro_evals: Option<(usize, usize)> = None;
+    // a quarter of the cases run with a re-entrant sink, another quarter moves the writer between writes
+    let variant = case_seed(spec.base_seed, spec.mode, &spec.id) >> 7;
+    let mut excursions = 0u64;
+    REENTRANT_SINK_ERRORS.with(|c| c.set(0));
+    REENTRANT_SINK_CALLS.with(|c| c.set(0));
     let mut bad: Option<Bad> = None;
     let mut rt_values = 0u64;
     let mut rt_bad: Option<(usize, String, String)> = None;
@@ -1611,6 +1656,7 @@ fn run_actions(spec: &CaseSpec, buf: usize, rep: &mut Report, verbose: bool) {
         let reader = Reader::new(Box::new(io::empty()));
         let writer = ManuallyDrop::new(lib!(Writer::new(Box::new(sink))));
         rlib_io::make_output_macro!(reader, writer);
+        REENTRANT_SINK.with(|c| c.set(variant % 4 == 1));
         for (i, a) in actions.iter().enumerate() {
             let pending = writer.verif_pending();
             let is_flush = matches!(a, Action::Flush);
@@ -1618,6 +1664,17 @@ fn run_actions(spec: &CaseSpec, buf: usize, rep: &mut Report, verbose: bool) {
             a.render(&mut mon.exp);
             let mut calls = 1u64;
             match a {
+                Action::W(p) if variant % 4 == 2 && i % 3 == 1 => {
+                    // the writer value is moved: it changes places with a fresh writer, does this write from the other
+                    // place, and is moved back (a Writer is an ordinary movable value: mem::swap, Box::new, a struct field)
+                    cur_fn.set("write");
+                    excursions += 1;
+                    let mut elsewhere = lib!(Writer::new(Box::new(io::sink())));
+                    std::mem::swap(&mut *writer, &mut elsewhere);
+                    lib!(p.write_to(&mut elsewhere));
+                    std::mem::swap(&mut *writer, &mut elsewhere);
+                    drop(elsewhere);
+                }
                 Action::W(p) => {
                     cur_fn.set("write");
                     lib!(p.write_to(&mut writer));
@@ -1808,6 +1865,20 @@ fn run_actions(spec: &CaseSpec, buf: usize, rep: &mut Report, verbose: bool) {
             eprintln!("  PANIC during {}: {} at {}:{}", cur_fn.get(), p.msg, p.file, p.line);
         }
         report_panic(rep, p, cur_fn.get(), spec.mode, replay.clone(), ctx);
+        return;
+    }
+    REENTRANT_SINK.with(|c| c.set(false));
+    rep.count("writes_from_another_place_after_a_move", excursions);
+    rep.count("reentrant_sink_calls", REENTRANT_SINK_CALLS.with(|c| c.get()));
+    if REENTRANT_SINK_ERRORS.with(|c| c.get()) > 0 {
+        rep.violation(
+            format!("reentrant_sink_inner_writer:{}", PROFILE),
+            Json::obj()
+                .set("what", "a second Writer used by the sink while it handles a call of the first one rendered its integers wrongly")
+                .set("wrong_inner_outputs", REENTRANT_SINK_ERRORS.with(|c| c.get()))
+                .set("workload", spec.mode),
+            replay.clone(),
+        );
         return;
     }
     if let Some((args, evals)) = macro_evals {
